@@ -96,6 +96,9 @@ type rsServer struct {
 	sid     uint64
 	plain   int // frames that arrived unencrypted (a key exchange was attempted)
 	cond    *sync.Cond
+	callers int          // number of callers of the scenario: a ping whose id names none of them is the library's own keepalive ping
+	pings   []rsFrame    // the keepalive pings, in arrival order
+	lost    map[int]bool // connections (by number) that ended with the client's last writes unread: hard close, reset, cut frame
 }
 
 func rsNewServer(key []byte, log *rsLog) *rsServer {
@@ -166,6 +169,12 @@ func (s *rsServer) readLoop(c net.Conn) {
 		// msg_ids:Vector<long> with at least one id and nothing behind the last one. Anything else under those
 		// constructors is a message the client damaged between encoding and writing it (event X).
 		switch {
+		case ctor == rsCrcPing && len(f.Body) == 12 && s.callers > 0 &&
+			(int64(binary.LittleEndian.Uint64(f.Body[4:])) < rsTagBase || int64(binary.LittleEndian.Uint64(f.Body[4:])) >= rsTagBase+int64(s.callers)):
+			// a well-formed ping that is no caller's request: the client's own keepalive (it sends one per minute of
+			// a connection's life). K:<msg_id>:<seq_no>:<salt>
+			s.pings = append(s.pings, f)
+			s.log.add("K:%d:%d:%d", f.Mid, f.Seq, int64(f.Salt))
 		case ctor == rsCrcPing && len(f.Body) == 12:
 			tag := int64(binary.LittleEndian.Uint64(f.Body[4:]))
 			f.Caller = int(tag - rsTagBase)
@@ -310,6 +319,31 @@ func (s *rsServer) resend() bool {
 	s.log.add("%s", line)
 	_, _ = c.Write(pkt)
 	return true
+}
+
+// sendPlain writes a PLAIN-TEXT frame on the session's connection: auth_key_id 0, a msg_id, the length, the body —
+// the envelope of the key exchange. Nobody needs the auth key to write one, so on a session that already works
+// under its key such a frame does not come from the server: whatever it carries, the client must not take it for
+// a message (event U:<msg_id>:<description>, never R). how: "" well formed (server-parity msg_id, true length);
+// "~" a msg_id of client parity; "+" a length field four bytes larger than the body (the last two are refused by
+// the envelope layer whatever the session's state).
+func (s *rsServer) sendPlain(body []byte, desc, how string) {
+	s.mu.Lock()
+	mid := s.newMsgID()
+	c := s.conn
+	s.mu.Unlock()
+	declared := uint32(len(body))
+	switch how {
+	case "~":
+		mid &^= 3
+	case "+":
+		declared += 4
+	}
+	s.log.add("U:%d:%s", mid, desc)
+	pkt := rsCat(rsU64(0), rsU64(mid), rsU32(declared), body)
+	if c != nil {
+		_, _ = c.Write(rsCat(rsU32(uint32(len(pkt))), pkt))
+	}
 }
 
 // ---- yield rules: hold a goroutine of the client at a named point (build-tag hooks in /repo) -------------
@@ -465,6 +499,62 @@ func (s *rsServer) closeConn() {
 		return
 	}
 	_ = c.Close()
+}
+
+// markLost: the connection in use ends without the server reading what the client still writes into it
+func (s *rsServer) markLost() net.Conn {
+	s.mu.Lock()
+	defer s.mu.Unlock()
+	if s.lost == nil {
+		s.lost = map[int]bool{}
+	}
+	s.lost[s.conns] = true
+	return s.conn
+}
+
+// dropConn closes the connection at once, both directions (a server process that ends, a load balancer that drops
+// the session): when nothing of the client is unread the client still sees an orderly end of stream, after
+// everything the server sent — but whatever it writes from now on (the acknowledgements it owes) goes nowhere,
+// the first write at the latest provokes a reset and the following ones fail.
+func (s *rsServer) dropConn() {
+	if c := s.markLost(); c != nil {
+		_ = c.Close()
+	}
+}
+
+// resetConn: the connection is reset (RST instead of FIN; what was not read yet on either side is gone)
+func (s *rsServer) resetConn() {
+	c := s.markLost()
+	if tc, ok := c.(*net.TCPConn); ok {
+		_ = tc.SetLinger(0)
+	}
+	if c != nil {
+		_ = c.Close()
+	}
+}
+
+// cutConn: the first n bytes of the frame that would carry body reach the client, then the stream ends (n < 4: inside
+// the length prefix, n >= 4: inside the packet). The message is never delivered: no R event.
+func (s *rsServer) cutConn(n int, body []byte, contentRelated bool) {
+	s.mu.Lock()
+	mid := s.newMsgID()
+	seq := s.content * 2
+	if contentRelated {
+		seq++
+		s.content++
+	}
+	sid := s.sid
+	s.mu.Unlock()
+	pkt := envSeal(8, s.key, envMsg{Salt: 0x1122334455667788, Sid: sid, Mid: mid, Seq: seq, Body: body}, rsPad(len(body)))
+	frame := rsCat(rsU32(uint32(len(pkt))), pkt)
+	if n > len(frame)-1 {
+		n = len(frame) - 1
+	}
+	c := s.markLost()
+	if c != nil && n > 0 {
+		_, _ = c.Write(frame[:n])
+	}
+	s.closeConn()
 }
 
 func (s *rsServer) stop() {
@@ -999,6 +1089,9 @@ func rsStartOn(kinds []string, salt int64, fileStore bool) (*rsRun, error) {
 	transport.VerifYield = rsYield
 	transport.VerifFault = rsFault
 	srv := rsNewServer(key, log)
+	srv.mu.Lock()
+	srv.callers = len(kinds)
+	srv.mu.Unlock()
 	store := &rsStore{log: log, s: &session.Session{Key: key, Hash: envSha1(key)[12:20], Salt: salt, Hostname: srv.ln.Addr().String()}}
 	tmpDir := ""
 	if fileStore {
@@ -1028,6 +1121,12 @@ func rsStartOn(kinds []string, salt int64, fileStore bool) (*rsRun, error) {
 		res, req, n := rsSplitKind(k)
 		r.kinds, r.reqs, r.reqN = append(r.kinds, res), append(r.reqs, req), append(r.reqN, n)
 	}
+	// the application's handler for what is not service traffic (updates): it sees every such object, claims none
+	// (the client then reports the object on the warning channel as before). H:<object>
+	m.AddCustomServerRequestHandler(func(obj any) bool {
+		log.add("H:%s", rsHandlerDump(obj))
+		return false
+	})
 	m.Warnings = make(chan error, 4096)
 	go func() {
 		for w := range m.Warnings {
@@ -1048,6 +1147,23 @@ func rsStartOn(kinds []string, salt int64, fileStore bool) (*rsRun, error) {
 	return r, nil
 }
 
+// rsHandlerDump: how an object handed to the application's handler appears in the trace
+func rsHandlerDump(obj any) (out string) {
+	defer func() {
+		if recover() != nil {
+			out = "?"
+		}
+	}()
+	d := strings.NewReplacer(",", ";", ":", ".").Replace(rsShorten(rsDump(obj)))
+	if len(d) > 160 {
+		d = d[:160] + "…"
+	}
+	return d
+}
+
+// rsUpdDump: the object of plan item "u" as rsHandlerDump prints it
+const rsUpdDump = "o0949d9dc(w1;w2;l3)"
+
 func rsWarnClass(err error) string {
 	s := err.Error()
 	switch {
@@ -1059,6 +1175,8 @@ func rsWarnClass(err error) string {
 		return "unknown-req-id"
 	case strings.Contains(s, "reconnect"):
 		return "reconnect"
+	case strings.HasPrefix(s, "reading message") && !strings.Contains(s, "parsing message"):
+		return "conn-broken" // the connection could not be read any further (timeout, reset, a frame cut short): it is replaced
 	case strings.Contains(s, "sending ack"):
 		return "ackfail" // the consequence of an injected write fault (event F), not a message the client could not handle
 	case strings.Contains(s, "saving session"):
@@ -1190,6 +1308,18 @@ func (r *rsRun) item(it string) (body []byte, content bool, desc string, ok bool
 	switch {
 	case it == "p":
 		return rsCat(rsU32(rsCrcPong), rsU64(1), rsU64(2)), false, "pong", true
+	case it == "pk": // the answer a conformant server gives to the client's latest keepalive ping: a bare pong naming it
+		r.srv.mu.Lock()
+		n := len(r.srv.pings)
+		var f rsFrame
+		if n > 0 {
+			f = r.srv.pings[n-1]
+		}
+		r.srv.mu.Unlock()
+		if n == 0 || len(f.Body) != 12 {
+			return nil, false, "", false
+		}
+		return rsCat(rsU32(rsCrcPong), rsU64(f.Mid), f.Body[4:12]), false, "pong", true
 	case it == "k":
 		return rsCat(rsU32(rsCrcAck), rsU32(rsCrcVector), rsU32(1), rsU64(4)), false, "ack", true
 	case strings.HasPrefix(it, "z(") && strings.HasSuffix(it, ")"): // z(<item>): the item inside gzip_packed (the client unpacks it and
@@ -1228,6 +1358,15 @@ func (r *rsRun) item(it string) (body []byte, content bool, desc string, ok bool
 			code = 17
 		}
 		return rsCat(rsU32(rsCrcBadMsg), rsU64(f.Mid), rsU32(f.Seq), rsU32(code)), false, fmt.Sprintf("badmsg(%d)", f.Mid), true
+	case strings.HasPrefix(it, "F"): // an rpc_result naming caller i's latest request with a value the server's script never
+		// sends: what somebody who has seen the request's msg_id on the wire can write
+		i := atoi(it[1:])
+		f, found := r.srv.latestReq(i)
+		if !found {
+			return nil, false, "", false
+		}
+		return rsRpcResult(f.Mid, rsCat(rsU32(rsCrcPong), rsU64(424242), rsU64(uint64(i)))), true,
+			fmt.Sprintf("res(%d/o347773c5(l424242;l%d))", f.Mid, i), true
 	case strings.HasPrefix(it, "E"): // rpc_error as the answer to caller i's latest request, whatever result its call declares
 		i := atoi(it[1:])
 		f, found := r.srv.latestReq(i)
@@ -1584,6 +1723,46 @@ func (r *rsRun) runPlan(plan string) string {
 			for _, t := range strings.Split(st[1:], "+") {
 				r.call(atoi(t))
 			}
+		case strings.HasPrefix(st, "wk"): // wk<n>: wait for the client's n-th keepalive ping (one per minute of a connection's life)
+			n, deadline := atoi(st[2:]), time.Now().Add(time.Duration(atoi(st[2:]))*time.Minute+15*time.Second)
+			for {
+				r.srv.mu.Lock()
+				have := len(r.srv.pings)
+				r.srv.mu.Unlock()
+				if have >= n {
+					break
+				}
+				if time.Now().After(deadline) {
+					return "no-keepalive-ping:" + st
+				}
+				time.Sleep(5 * time.Millisecond)
+			}
+		case st == "drop" || st == "rst" || strings.HasPrefix(st, "cut"):
+			// the connection ends in a way that is not the orderly half-close of step "close": dropped at once with
+			// the client's acknowledgements unread (drop), reset (rst), or in the middle of a frame (cut<n>:<item>, n
+			// bytes of the frame arrive). The client must come back on a new connection with the same key.
+			before := r.srv.conns
+			r.log.add("C")
+			switch {
+			case st == "drop":
+				r.srv.dropConn()
+			case st == "rst":
+				r.srv.resetConn()
+			default:
+				colon := strings.Index(st, ":")
+				if colon < 0 {
+					return "bad-item:" + st
+				}
+				b, content, _, ok := r.item(st[colon+1:])
+				if !ok {
+					return "bad-item:" + st
+				}
+				r.srv.cutConn(atoi(st[3:colon]), b, content)
+			}
+			if !r.srv.waitConns(before+1, 3*time.Second) {
+				return "no-reconnect"
+			}
+			time.Sleep(4 * time.Millisecond)
 		case strings.HasPrefix(st, "w"):
 			if !r.srv.waitReqs(atoi(st[1:]), 3*time.Second) {
 				return "timeout-waiting-for-requests:" + st
@@ -1608,6 +1787,23 @@ func (r *rsRun) runPlan(plan string) string {
 				return "bad-item:" + st
 			}
 			r.srv.sendBodyID(id, b, content, desc)
+		case strings.HasPrefix(st, "~"): // ~<item>: the item as a plain-text frame (~~<item>, ~+<item>: damaged ones, see sendPlain)
+			how, it := "", st[1:]
+			if strings.HasPrefix(it, "~") || strings.HasPrefix(it, "+") {
+				how, it = it[:1], it[1:]
+			}
+			// whoever writes the frame is not the server: the server's own counters stay as they are
+			r.srv.mu.Lock()
+			content := r.srv.content
+			r.srv.mu.Unlock()
+			b, _, desc, ok := r.item(it)
+			r.srv.mu.Lock()
+			r.srv.content = content
+			r.srv.mu.Unlock()
+			if !ok {
+				return "bad-item:" + st
+			}
+			r.srv.sendPlain(b, desc, how)
 		case st == "=":
 			if !r.srv.resend() {
 				return "bad-item:="
@@ -1720,10 +1916,58 @@ func rsScenario(kindsCSV, plan string) (trace string, note string) {
 	slow := r.store.maxSlowed
 	r.store.mu.Unlock()
 	time.Sleep(3*time.Millisecond + slow + slow/4)
-	r.rsWaitAcks(300 * time.Millisecond)
+	if !r.lostAcksOnly() {
+		r.rsWaitAcks(300 * time.Millisecond)
+	}
+	// acknowledgements of messages that were sent on a connection that ended with the client's writes unread: the
+	// client wrote them into a connection that was gone (or could not write them) — lost with the connection, an
+	// environment fault like an injected write error (F:k:<ids>)
+	if lost := r.lostAcks(); len(lost) > 0 {
+		var xs []string
+		for _, id := range lost {
+			xs = append(xs, strconv.FormatUint(id, 10))
+		}
+		r.log.add("F:k:%s", strings.Join(xs, "+"))
+	}
 	r.finish()
 	ev := r.log.snapshot()
 	return strings.Join(ev, ","), note
+}
+
+// lostAcks: unacknowledged content-related messages that were sent on a connection marked lost
+func (r *rsRun) lostAcks() []uint64 {
+	evs := r.log.snapshot()
+	r.srv.mu.Lock()
+	lost := r.srv.lost
+	r.srv.mu.Unlock()
+	if len(lost) == 0 {
+		return nil
+	}
+	missing := map[uint64]bool{}
+	for _, id := range rsMissingAcks(evs) {
+		missing[id] = true
+	}
+	var out []uint64
+	gen := 0
+	for _, e := range evs {
+		switch {
+		case strings.HasPrefix(e, "N:"):
+			gen = atoi(e[2:])
+		case strings.HasPrefix(e, "R:") && lost[gen]:
+			for _, s := range rsFlattenR(e) {
+				if s.seq%2 == 1 && missing[s.mid] {
+					out = append(out, s.mid)
+					delete(missing, s.mid)
+				}
+			}
+		}
+	}
+	return out
+}
+
+// lostAcksOnly: every acknowledgement still missing is one that was lost with its connection (nothing to wait for)
+func (r *rsRun) lostAcksOnly() bool {
+	return len(r.lostAcks()) > 0 && len(r.lostAcks()) == len(rsMissingAcks(r.log.snapshot()))
 }
 
 // rsWaitAcks waits until every content-related message the server sent has been acknowledged (or the
